@@ -100,7 +100,7 @@ def ecdsa_sign_encoding(alg):
 def plan(tier):
     q = tier == "quick"
     T = 300 if q else 1500
-    specs = [("roundtrip", [(a,) for a in range(15)]), ("roundtrip_b64", [(a,) for a in range(15)]),
+    specs = [("roundtrip_layout", [(a,) for a in range(15)]), ("roundtrip_keys", [(a,) for a in range(15)]), ("roundtrip_b64", [(a,) for a in range(15)]),
              ("detach", [(a,) for a in (range(15) if not q else (0, 3, 6, 9, 11, 13, 14))]),
              ("roundtrip_text", [(a,) for a in (range(15) if not q else (0, 4, 10))])]
     path, names = gen.specialise(BASE, specs, "c03_gen.py")
